@@ -11,7 +11,9 @@ use crate::trace::*;
 use quick_xml::reader::Reader;
 use serde_json::{json, Value};
 
-const TOKENS: [&[u8]; 8] = [b"<a>", b"<ab>", b"<b/>", b"</a>", b"</ab>", b"</a >", b"</b>", b"x"];
+// the second name is the Cyrillic letter `х` (bytes D1 85): names are byte strings, and a byte such as
+// 0x85 inside a name must not be mistaken for a blank
+const TOKENS: [&[u8]; 8] = [b"<a>", b"<ab>", b"<\xD1\x85/>", b"</a>", b"</ab>", b"</a >", b"</\xD1\x85>", b"x"];
 /// the four related switches, as bits of the cfg byte
 const SWITCHES: [u8; 4] = [CHECK_END_NAMES, ALLOW_UNMATCHED, EXPAND_EMPTY, TRIM_NAMES];
 
@@ -59,13 +61,14 @@ fn expected_next(m: &mut Model, doc: &[u8], cfg: u8) -> (Ev, u64, Option<u64>) {
             }
             (Ev::Text(text), m.pos, None)
         }
-        b"<b/>" => {
+        b"<\xD1\x85/>" => {
+            let n: &[u8] = b"\xD1\x85";
             if cfg & EXPAND_EMPTY != 0 {
-                m.stack.start(b"b");
-                m.pending_end = Some(b"b".to_vec());
-                (Ev::Start(b"b".to_vec(), 1), after, None)
+                m.stack.start(n);
+                m.pending_end = Some(n.to_vec());
+                (Ev::Start(n.to_vec(), 2), after, None)
             } else {
-                (Ev::Empty(b"b".to_vec(), 1), after, None)
+                (Ev::Empty(n.to_vec(), 2), after, None)
             }
         }
         _ if t.starts_with(b"</") => {
@@ -166,7 +169,7 @@ impl<'a> Walk<'a> {
 
 pub fn run(ctx: &Ctx) {
     ctx.set_rule(
-        "documents: every sequence of up to N tokens over {<a> <ab> <b/> </a> </ab> </a_> </b> x}; for each document and each of \
+        "documents: every sequence of up to N tokens over {<a> <ab> <х/> </a> </ab> </a_> </х> x} (х = bytes D1 85); for each document and each of \
          the 16 initial settings of (check_end_names, allow_unmatched_ends, expand_empty_elements, \
          trim_markup_names_in_closing_tags): every history of read_event calls interleaved with up to F switch flips (any \
          non-empty set of switches, at any event index) is walked over clones of the real reader; every read result (event / \
